@@ -28,6 +28,31 @@ SPECS = [
              "or raised('e3')" % (caught('e1'), caught('e2')),
          ]}},
          serves=['C04']),
+    dict(id='S-Pipe-prefix-middle',
+         # "nestings of these": a type prefix behind a pipe applies to everything that follows it --
+         # `a | not: b | c` is `a | not:(b | c)`
+         text='A<p tal:condition="e1 | not: e2 | e3">%s</p>B' % H1,
+         ensures=[
+             "evals(1) == 1",
+             "evals(2) == (1 if raised('e1') else 0)",
+             "evals(3) == (1 if raised('e1') and raised('e2') else 0)",
+             "raised('e1') or (holes(1) == 1) == bool(val(1))",
+             "not raised('e1') or raised('e2') or (holes(1) == 1) == (not bool(val(2)))",
+             "not (raised('e1') and raised('e2')) or (holes(1) == 1) == (not bool(val(3)))",
+         ],
+         raises={'*': {'ensures': ["raised('e1') or raised('e2') or raised('e3') or raised('h1')"]}},
+         serves=['C04'], no_token_posts=True),
+    dict(id='S-Cdata-twice',
+         # a CDATA section ends at ITS `]]>`: what stands between two sections is ordinary markup, and
+         # values inserted there are escaped
+         text='A<![CDATA[x]]><p>${e1}</p><![CDATA[y]]>B',
+         ensures=[
+             "evals(1) == 1", "quote_calls() == 1",
+             "S() == S0() + 'A<![CDATA[x]]><p>' + "
+             "('' if quoted(val(1), '\\0', '&#0;', None, None) is None else piece(quoted(val(1), '\\0', '&#0;', None, None))) + '</p><![CDATA[y]]>B'",
+         ],
+         raises={'*': {'ensures': ["raised('e1')"]}},
+         serves=['C02', 'C06', 'C03']),
     dict(id='S-Not', text='A<p tal:condition="not: e1">%s</p>B' % H1,
          ensures=["evals(1) == 1",
                   "bool(val(1)) == (holes(1) == 0)"],
